@@ -582,6 +582,7 @@ pub fn run(thorough: bool) -> Report {
     let arr = array_menu();
     let brm = branch_menu();
     let quiet = quiet_menu();
+    let forvar = forvar_menu();
     let mut fams = vec![];
     // (menu name, menu, statements, join layouts: 2 = all, 1 = none/all/each single, 0 = none only)
     let mut plan: Vec<(&str, &Vec<(&'static str, T)>, usize, u8)> = vec![
@@ -594,9 +595,10 @@ pub fn run(thorough: bool) -> Report {
         ("data", &data, 5, 1),
         ("data", &data, 6, 0),
         ("fn", &fnm, 4, 1),
-        ("array", &arr, 4, 1),
+        ("array", &arr, 3, 2),
+        ("array", &arr, 4, 0),
         ("branch", &brm, 4, 2),
-        ("branch", &brm, 5, 0),
+        ("forvar", &forvar, 5, 1),
         ("quiet", &quiet, 4, 1),
         ("quiet", &quiet, 5, 0),
     ];
@@ -611,6 +613,8 @@ pub fn run(thorough: bool) -> Report {
         plan.push(("data", &data, 7, 0));
         plan.push(("fn", &fnm, 5, 1));
         plan.push(("fn", &fnm, 6, 0));
+        plan.push(("array", &arr, 4, 1));
+        plan.push(("branch", &brm, 5, 0));
         plan.push(("array", &arr, 5, 0));
         plan.push(("array", &arr, 5, 1));
         plan.push(("array", &arr, 6, 0));
